@@ -132,10 +132,12 @@ func (r *R) Violate(sig, format string, a ...interface{}) {
 		r.res.Verdict = Violated
 		r.res.Sig = sig
 		r.res.Detail = d
+		journalViolation(sig, d)
 		return
 	}
 	if len(r.res.More) < 50 {
 		r.res.More = append(r.res.More, SubViolation{sig, d})
+		journalViolation(sig, d)
 	}
 }
 
@@ -322,6 +324,37 @@ func Note(format string, a ...interface{}) {
 	noteFile.WriteAt(b, 0)
 }
 
+var (
+	wJournal   *os.File
+	wIdx       = -1
+	wResumeIdx = -1
+	wResumeSub = 0
+	wAttempt   = 0
+)
+
+func journalViolation(sig, detail string) {
+	if wJournal == nil {
+		return
+	}
+	b, _ := json.Marshal(SubViolation{sig, detail})
+	fmt.Fprintf(wJournal, "V %d %d %s\n", wIdx, wAttempt, b)
+}
+
+// Sub announces sub-case i of the running case. It returns false when
+// the sub-case must be skipped because an earlier attempt of this case
+// already went past it (the worker died there and was restarted). A
+// process-fatal failure is thereby attributed to one sub-case and does
+// not mask the sub-cases after it.
+func Sub(i int) bool {
+	if wIdx == wResumeIdx && i < wResumeSub {
+		return false
+	}
+	if wJournal != nil {
+		fmt.Fprintf(wJournal, "S %d %d\n", wIdx, i)
+	}
+	return true
+}
+
 // WorkerMain is the entry point of `vw worker`.
 func WorkerMain(ck Check, caseFile, journal string, from int) {
 	o := ck.Opts()
@@ -349,10 +382,15 @@ func WorkerMain(ck Check, caseFile, journal string, from int) {
 		os.Exit(3)
 	}
 	noteFile, _ = os.OpenFile(journal+".note", os.O_RDWR|os.O_CREATE|os.O_TRUNC, 0644)
+	wJournal = jf
+	wResumeIdx = from
+	wResumeSub, _ = strconv.Atoi(os.Getenv("VW_RESUME_SUB"))
+	wAttempt, _ = strconv.Atoi(os.Getenv("VW_ATTEMPT"))
 	for _, c := range cases {
 		if c.Idx < from {
 			continue
 		}
+		wIdx = c.Idx
 		Note("")
 		fmt.Fprintf(jf, "B %d\n", c.Idx)
 		var res Result
@@ -472,6 +510,11 @@ func runBatch(ck Check, o WorkerOpts, exe, scratch string, bi int, b batch, resu
 	for i, c := range b.cases {
 		idxPos[c.Idx] = i
 	}
+	resumeSub := 0
+	pending := map[int][]SubViolation{} // crashes of earlier attempts, per case
+	pendingNotes := map[int][]string{}
+	earlierV := map[int][]SubViolation{}
+	restarts := 0
 	for pos < len(b.cases) {
 		from := b.cases[pos].Idx
 		attempts++
@@ -491,6 +534,8 @@ func runBatch(ck Check, o WorkerOpts, exe, scratch string, bi int, b batch, resu
 				"GORACE=halt_on_error=0 history_size=3 log_path="+filepath.Join(scratch, fmt.Sprintf("race-b%d", bi)))
 			cmd.Env = append(cmd.Env, o.Env...)
 		}
+		cmd.Env = append(cmd.Env, fmt.Sprintf("VW_RESUME_SUB=%d", resumeSub), fmt.Sprintf("VW_ATTEMPT=%d", attempts))
+		resumeSub = 0
 		cmd.Stdout = of
 		cmd.Stderr = of
 		wall := o.WallSeconds
@@ -513,13 +558,31 @@ func runBatch(ck Check, o WorkerOpts, exe, scratch string, bi int, b batch, resu
 		of.Close()
 		// Read the journal.
 		inflight := -1
+		lastSub := -1
+		vThis := map[int][]SubViolation{}
 		jb, _ := os.ReadFile(journal)
+		os.Truncate(journal, 0)
 		sc := bufio.NewScanner(strings.NewReader(string(jb)))
 		sc.Buffer(make([]byte, 1<<20), 64<<20)
 		for sc.Scan() {
 			line := sc.Text()
 			if strings.HasPrefix(line, "B ") {
 				inflight, _ = strconv.Atoi(line[2:])
+				lastSub = -1
+			} else if strings.HasPrefix(line, "S ") {
+				f := strings.Fields(line)
+				if len(f) == 3 {
+					lastSub, _ = strconv.Atoi(f[2])
+				}
+			} else if strings.HasPrefix(line, "V ") {
+				f := strings.SplitN(line, " ", 4)
+				if len(f) == 4 {
+					ci, _ := strconv.Atoi(f[1])
+					var sv SubViolation
+					if json.Unmarshal([]byte(f[3]), &sv) == nil {
+						vThis[ci] = append(vThis[ci], sv)
+					}
+				}
 			} else if strings.HasPrefix(line, "E ") {
 				rest := line[2:]
 				sp := strings.IndexByte(rest, ' ')
@@ -529,6 +592,25 @@ func runBatch(ck Check, o WorkerOpts, exe, scratch string, bi int, b batch, resu
 				idx, _ := strconv.Atoi(rest[:sp])
 				var r Result
 				if json.Unmarshal([]byte(rest[sp+1:]), &r) == nil {
+					// merge what earlier attempts of this case found
+					for _, sv := range append(earlierV[idx], pending[idx]...) {
+						if r.Verdict != Violated {
+							r.Verdict = Violated
+							r.Sig, r.Detail = sv.Sig, sv.Detail
+						} else if len(r.More) < 200 {
+							r.More = append(r.More, sv)
+						}
+					}
+					if n := len(pendingNotes[idx]); n > 0 {
+						if r.Counters == nil {
+							r.Counters = map[string]int64{}
+						}
+						r.Counters["inconclusive_subcases"] += int64(n)
+						if r.Sets == nil {
+							r.Sets = map[string][]string{}
+						}
+						r.Sets["inconclusive_subcases"] = append(r.Sets["inconclusive_subcases"], pendingNotes[idx]...)
+					}
 					results[idx] = r
 					done[idx] = true
 				}
@@ -557,6 +639,31 @@ func runBatch(ck Check, o WorkerOpts, exe, scratch string, bi int, b batch, resu
 				out = "last note before death: " + note + "\n" + out
 			}
 		}
+		if inflight >= 0 && !done[inflight] && lastSub >= 0 && restarts < 400 {
+			// The check announces sub-cases: attribute the death to the
+			// sub-case, keep what this attempt found, and resume after it.
+			restarts++
+			msg, frame := parseCrash(out)
+			earlierV[inflight] = append(earlierV[inflight], vThis[inflight]...)
+			oom := strings.Contains(out, "out of memory") || strings.Contains(out, "cannot allocate memory")
+			switch {
+			case timedOut:
+				pendingNotes[inflight] = append(pendingNotes[inflight], fmt.Sprintf("sub-case %d: wall-clock watchdog", lastSub))
+			case isRlimitCPU(werr):
+				pendingNotes[inflight] = append(pendingNotes[inflight], fmt.Sprintf("sub-case %d: RLIMIT_CPU", lastSub))
+			case oom && strings.Contains(out, "[declared-size-above-cap]"):
+				pendingNotes[inflight] = append(pendingNotes[inflight], fmt.Sprintf("sub-case %d: allocation failure on a declared size above the cap: %s", lastSub, trunc(firstLines(out, 2), 300)))
+			case oom:
+				pending[inflight] = append(pending[inflight], SubViolation{CrashSig("oom", frame, "out of memory"), tail(firstLines(out, 40), 2500)})
+			case o.CrashIsViolation:
+				pending[inflight] = append(pending[inflight], SubViolation{CrashSig("fatal", frame, msg), fmt.Sprintf("worker died (%v) in sub-case %d: %s", werr, lastSub, tail(firstLines(out, 50), 2500))})
+			default:
+				pendingNotes[inflight] = append(pendingNotes[inflight], fmt.Sprintf("sub-case %d: worker died (%v)", lastSub, werr))
+			}
+			resumeSub = lastSub + 1
+			pos = idxPos[inflight]
+			continue
+		}
 		if inflight >= 0 && !done[inflight] {
 			r := Result{Idx: inflight, Crashed: true}
 			msg, frame := parseCrash(out)
@@ -567,6 +674,11 @@ func runBatch(ck Check, o WorkerOpts, exe, scratch string, bi int, b batch, resu
 			case isRlimitCPU(werr):
 				r.Verdict = Inconclusive
 				r.Detail = "RLIMIT_CPU hit: " + tail(out, 500)
+			case (strings.Contains(out, "out of memory") || strings.Contains(out, "cannot allocate memory")) && strings.Contains(out, "[declared-size-above-cap]"):
+				// An allocation proportional to a size the archive itself
+				// declares above the cap: inconclusive by rule (DESIGN.md §2.2).
+				r.Verdict = Inconclusive
+				r.Detail = "allocation failure on a declared size above the cap: " + tail(firstLines(out, 6), 600)
 			case strings.Contains(out, "out of memory") || strings.Contains(out, "cannot allocate memory"):
 				// Decided by the check: it gets the raw information.
 				r.Verdict = Violated
